@@ -1,4 +1,4 @@
-//go:build verif
+//go:build verif && !noc15
 
 package main
 
